@@ -178,7 +178,7 @@ def rand_writer_ops(rng, sep=";", kv=":"):
     n = rng.choice([0, 1, 1, 2, 3, 4])
     ops = []
     for _ in range(n):
-        kind = rng.choice(["s", "s", "s", "l", "u", "f"])
+        kind = rng.choice(["s", "s", "s", "l", "u", "f", "c"])
         ops.append(kind + kv + hx(rand_out_text(rng)))
     return sep.join(ops) if ops else ("-" if sep == ";" else "")
 
@@ -258,7 +258,7 @@ def rand_session_w1(rng, nops=30):
             ws = []
             for _ in range(n):
                 t = b"".join(rng.choice([b"a", b"b", b"\n", b"\r\n", b" ", "é".encode(), b"x", b""]) for _ in range(rng.randrange(0, 6)))
-                ws.append(rng.choice("slu") + hx(t))
+                ws.append(rng.choice("sluc") + hx(t))
             ops.append("w:" + ",".join(ws))
         else: ops.append("p:%d" % rng.randrange(4))
     return "%d %d %d raw %s" % (cap, hcap, rng.randrange(4), ";".join(ops))
